@@ -115,6 +115,10 @@ pub trait Prop: Sync + Send + 'static {
     fn builtin_corpus(&self) -> Vec<Self::Case> {
         Vec::new()
     }
+    /// upper bound for the number of harness workers (C19 needs 1: its cases own real threads and must not interfere)
+    fn max_jobs(&self) -> Option<usize> {
+        None
+    }
     /// extra key/values for the coverage object
     fn extra_coverage(&self, _tier: Tier) -> BTreeMap<String, serde_json::Value> {
         BTreeMap::new()
@@ -663,7 +667,7 @@ pub fn run_prop<P: Prop>(prop: P, opts: &Opts) -> ! {
 
     // ---------------- generated cases
     let cases = opts.cases_override.unwrap_or_else(|| prop.cases(opts.tier));
-    let jobs = opts.jobs.max(1) as u64;
+    let jobs = opts.jobs.max(1).min(prop.max_jobs().unwrap_or(usize::MAX)) as u64;
     let per = cases.div_ceil(jobs);
     let mut handles = Vec::new();
     let found = Arc::new(Mutex::new(Vec::<(P::Case, Vec<Failure>, String)>::new()));
@@ -760,8 +764,12 @@ pub fn run_prop<P: Prop>(prop: P, opts: &Opts) -> ! {
     for (c, real, origin) in found.lock().unwrap().drain(..) {
         if real.is_empty() {
             // flaky: failed during the run but not when re-evaluated
-            println!("INCONCLUSIVE: a failing case did not reproduce when re-evaluated ({origin})");
-            std::process::exit(2);
+            if violations.is_empty() {
+                println!("INCONCLUSIVE: a failing case did not reproduce when re-evaluated ({origin})");
+                std::process::exit(2);
+            }
+            println!("note: a generated failing case did not reproduce when re-evaluated ({origin}); reporting the reproducible violations");
+            continue;
         }
         let p = write_replay(&opts.root, id, &c, &real, &origin);
         for f in real.iter().take(2) {
